@@ -131,7 +131,8 @@ def write(kind, x, path, rng, extra=None):
         x.tofile(path)
     elif kind == "sph":
         order = str(rng.choice(["01", "10"]))
-        open(path, "wb").write(SW.header(x.shape[1], x.shape[0], "pcm", 2, order, 1024) + SW.pcm_bytes(x, order))
+        hdr = int(rng.choice([1024, 1024, 2048, 4096]))  # (the header block may be longer than the fields need)
+        open(path, "wb").write(SW.header(x.shape[1], x.shape[0], "pcm", 2, order, hdr) + SW.pcm_bytes(x, order))
     return None
 
 
@@ -269,6 +270,13 @@ def roundtrip(mon, rec, rng, d, U):
             mon.register(f, expected=_contig(want), info=info)
             try:
                 U.read_signal(f, force_as=FORCE[kind], **kw)
+                # the stream is the caller's: still open afterwards, and good for another read from the start
+                rec.count("streams_read_a_second_time")
+                if f.closed:
+                    mon.v("read_signal closed the %s stream it was given" % kind, check="stream_closed", **info)
+                else:
+                    f.seek(0)
+                    U.read_signal(f, force_as=FORCE[kind], **kw)
             finally:
                 f.close()
     except Exception:
